@@ -6,7 +6,7 @@ import json
 
 from lib import enginecheck as ec
 from lib import h_engine, simenv
-from lib.vf import Ctx
+from lib.vf import REPO, Ctx
 
 
 def survivors(steps):
@@ -109,8 +109,30 @@ def gen_exhaustive(job, variant, depth, alphabet):
             yield list(word)
 
 
+def translate(ctx: Ctx) -> bool:
+    """the bookkeeping methods of SimulationHistory / OperationLog, regenerated from the tree under test (fail closed)"""
+    import tr_history
+    try:
+        files, meta = tr_history.gen(str(REPO))
+    except Exception as e:
+        ctx.prepare_coq()
+        for f in (ctx.coq / "gen").glob("HistorySrc.*"):
+            f.unlink()
+        ctx.broken.append("translator tools/tr_history.py rejects %s: %s" % (tr_history.SRC, str(e)[:300]))
+        ctx.obligations += 1
+        ctx.cov["translators"] = {"tr_history": {"files": [tr_history.SRC], "rejected": str(e)[:300]}}
+        return False
+    for n, t in files.items():
+        ctx.write_gen(n, t)
+    ctx.cov["translators"] = {"tr_history": {"files": [tr_history.SRC], "rejected": None, "functions": meta["functions"]}}
+    return True
+
+
 def run(ctx: Ctx) -> int:
-    ec.build_and_check_props(ctx, ["theories/Props/C03.v"])
+    if translate(ctx):
+        ec.build_and_check_props(ctx, ["theories/Props/C03.v", "theories/Props/C03_history.v"])
+    else:
+        ec.build_and_check_props(ctx, ["theories/Props/C03.v"])
     budget = ec.Budget(900 if ctx.thorough else 110)
     shards, findings, infos, samples = {}, [], {}, []
     distinct = set()
